@@ -95,6 +95,8 @@ def adj(a):
     if a is None:
         return None
     (k, v), = a.items()
+    if k == "num":
+        return num(v)           # a bare number: the library's shorthand for Multiply(number)
     return Multiply(expr(v)) if k == "mul" else Overwrite(expr(v))
 
 
@@ -109,6 +111,11 @@ def _fn1(s0, s1, k):
 
 def _fn2(s0, s1):
     return s0 * s1
+
+
+def _fn3(s0, s1):
+    # a ratio whose denominator vanishes at the first time (and wherever s1 returns to its first value): non-finite entries
+    return s0 / (s1 - s1[0])
 
 
 def build_strat(o):
@@ -194,6 +201,8 @@ def apply_op(m, o):
                 f = Function(_fn0, [srcs[0], ps[0]])
             elif fn == 1:
                 f = Function(_fn1, [srcs[0], srcs[1], ps[0]])
+            elif fn == 3:
+                f = Function(_fn3, [srcs[0], srcs[1]])       # (implementation-side oracles only)
             else:
                 f = Function(_fn2, [srcs[0], srcs[1]])
             m.request_function_output(name, f, save_results=save)
